@@ -452,7 +452,7 @@ func (vc *VC) enterLoop(b *ssa.BasicBlock, l *loopInfo) {
 			if m.Loop != l.ord {
 				continue
 			}
-			rm := resolvedMod{key: m.Key}
+			rm := resolvedMod{key: m.Key, fresh: m.Fresh}
 			if m.AtE != nil {
 				v := vc.eval(m.AtE, penv)
 				rm.obj = objOf(v)
@@ -479,6 +479,11 @@ func (vc *VC) enterLoop(b *ssa.BasicBlock, l *loopInfo) {
 		M := vc.memGet(pre, m.key, leaf)
 		if m.obj == "" {
 			vc.curMem.m[m.key] = vc.declMem(vc.sym("Mh_"+m.key), m.key, leaf, true)
+			if m.fresh {
+				// objects that existed when the function was entered keep their content
+				h := vc.curMem.m[m.key]
+				vc.emit(fmt.Sprintf("(assert (forall ((o Int)) (! (=> (< o $A0) (= (select %s o) (select %s o))) :pattern ((select %s o)))))", h, M, h))
+			}
 		} else {
 			a := vc.declMem(vc.sym("Ah_"+m.key), m.key, leaf, false)
 			vc.curMem.m[m.key] = vc.def("Mh_"+m.key, memSort(leaf), sto(M, m.obj, a))
